@@ -91,6 +91,20 @@ pub fn gen_walk(focus: &str, seed: u64) -> WalkScenario {
             }
         }
     }
+    if focus == "C07" && rng.chance(1, 25) {
+        // a large initial network: 22-45 envelopes over a few flows, interleaved and not in key order,
+        // with distinguishable messages inside each flow
+        let n = sys.tables.len() as u64;
+        let flows: Vec<(u8, u8)> = (0..rng.range(2, 4)).map(|_| (rng.below(n) as u8, rng.below(n) as u8)).collect();
+        for k in 0..rng.range(22, 45) {
+            let (a, b) = *rng.pick(&flows);
+            sys.init_net.push((a, b, (k % g.tags.max(1) as u64) as u8));
+        }
+    }
+    if matches!(focus, "C09" | "C06") && sys.max_crashes > 0 && rng.chance(1, 12) {
+        // "no limit": a budget beyond any number of actors (and beyond isize::MAX)
+        sys.max_crashes = *rng.pick(&[usize::MAX, usize::MAX - 1, usize::MAX / 2 + 1, 1000]);
+    }
     if focus == "C10" {
         clamp_ids(&mut sys);
     }
